@@ -475,23 +475,16 @@ def world_model(world, cells=None, stale=False, build_code=True):
     return model
 
 
-def run_decoy(world, namespace=None):
-    """Another workbook used earlier in the same process: the same formula
-    texts and the same defined names, but the names point at other cells and
-    the constants differ.  Anything the library keeps at module level keyed
-    too coarsely (formula text, name set, file name ...) is poisoned by it.
-    Outcomes are ignored."""
-    from xlcalculator import Evaluator
-    from .seams import Stepper
-    from .canon import outcome_of
+def sibling_world(world):
+    """Another workbook with the same formula texts and the same defined
+    names, but the names point at other cells and the numeric constants
+    differ."""
     order = world['order']
-    if not order:
-        return
     names = {}
     for i, (n, a) in enumerate(sorted(world['names'].items())):
         if a in order:
             names[n] = order[(order.index(a) + 1 + i) % len(order)]
-        else:
+        elif order:
             names[n] = order[i % len(order)]
     cells = {}
     for a, v in world['cells'].items():
@@ -501,9 +494,22 @@ def run_decoy(world, namespace=None):
             cells[a] = v
         else:
             cells[a] = v + 1000
-    decoy = dict(world, names=names, cells=cells, range_names={})
+    return dict(world, names=names, cells=cells, range_names={}, stale={})
+
+
+def run_decoy(world, namespace=None):
+    """An earlier workbook used in the same process (see sibling_world).
+    Anything the library keeps at module level keyed too coarsely (formula
+    text, name set, file name ...) is poisoned by it.  Outcomes are
+    ignored."""
+    from xlcalculator import Evaluator
+    from .seams import Stepper
+    from .canon import outcome_of
+    order = world['order']
+    if not order:
+        return
     try:
-        model = world_model(decoy)
+        model = world_model(sibling_world(world))
     except Exception:
         return
     ev = Evaluator(model, namespace) if namespace is not None \
